@@ -17,6 +17,7 @@ import (
 
 	"github.com/opencontainers/go-digest"
 
+	"github.com/olareg/olareg"
 	"github.com/olareg/olareg/types"
 )
 
@@ -59,6 +60,7 @@ type Op struct {
 	Method   string  `json:"method"`
 	Which    string  `json:"which"`
 	Raw      *RawReq `json:"raw,omitempty"`
+	NewCfg   *SrvCfg `json:"newcfg,omitempty"`
 }
 
 // RawReq is a fully concrete request (used by the routing/error classes of C15).
@@ -645,6 +647,19 @@ func (e *Exec) Do(op Op) Resp {
 		r := Resp{Status: 200, Off: -1, StOff: -1, Len: -1, Codes: []string{}, List: []string{}, ErrDoc: "none"}
 		if err != nil {
 			r.Status = 500
+			r.Note = err.Error()
+		}
+		return r
+	case "Reconf":
+		// close the server and open a new one with another configuration / store kind on the same directory
+		err := e.Srv.S.Close()
+		nc := *op.NewCfg
+		e.Srv.Cfg = nc
+		e.Srv.conf = nc.toConfig(e.Srv.Root)
+		e.Srv.S = olareg.New(e.Srv.conf)
+		e.Sess = map[string]*sessInfo{}
+		r := Resp{Status: 200, Off: -1, StOff: -1, Len: -1, Codes: []string{}, List: []string{}, ErrDoc: "none"}
+		if err != nil {
 			r.Note = err.Error()
 		}
 		return r
